@@ -438,3 +438,38 @@ func (p *Prog) exprAt(pos token.Pos) string {
 	}
 	return ""
 }
+
+// DepFn resolves a function of a dependency package (thorough-tier contract audit), building its SSA on demand.
+// name: "Func" or "(*T).Method".
+func (p *Prog) DepFn(pkgPath, name string) *ssa.Function {
+	pk := p.ByPath[pkgPath]
+	if pk == nil {
+		return nil
+	}
+	sp := p.SSA.Package(pk.Types)
+	if sp == nil {
+		return nil
+	}
+	sp.Build()
+	if strings.HasPrefix(name, "(") {
+		end := strings.Index(name, ")")
+		recv := name[1:end]
+		meth := name[end+2:]
+		ptr := strings.HasPrefix(recv, "*")
+		recv = strings.TrimPrefix(recv, "*")
+		obj := sp.Pkg.Scope().Lookup(recv)
+		if obj == nil {
+			return nil
+		}
+		var t types.Type = obj.Type()
+		if ptr {
+			t = types.NewPointer(t)
+		}
+		sel := p.SSA.MethodSets.MethodSet(t).Lookup(sp.Pkg, meth)
+		if sel == nil {
+			return nil
+		}
+		return p.SSA.MethodValue(sel)
+	}
+	return sp.Func(name)
+}
